@@ -268,3 +268,11 @@ def fill_ids(out):
         elif x == "@w":
             b = bytes.fromhex(tk[i - 3]); res[i] = hashlib.sha256(hashlib.sha256(b).digest()).digest()[::-1].hex()
     return "|".join(res)
+
+
+def guarded(f):
+    """one observation of a history: a raised exception is the observation ERR (the history goes on)"""
+    try:
+        return f()
+    except Exception:
+        return "ERR"
